@@ -443,3 +443,19 @@ func isTypeError(err error) bool {
 func specDocumentedError(err error) bool {
 	return err == error(ErrZeroDivision) || isTypeError(err)
 }
+
+// specBoolAsInt: a bool operand re-dispatched as int 1/0 (Bool.BinaryOp's loop).
+func specBoolAsInt(o Object) Object {
+	if b, ok := o.(Bool); ok {
+		if b {
+			return Int(1)
+		}
+		return Int(0)
+	}
+	return o
+}
+
+func specIsNaN(o Object) bool {
+	f, ok := o.(Float)
+	return ok && f != f
+}
